@@ -163,8 +163,12 @@ def arith_worker(job):
                 ins.append(PrivVal(v) if rnd.random() < 0.8 else PubVal(v))
                 mvals.append(v % p)
         del calls[:]
+        nin = len(ins)
         out = ph.poseidon_hash(ins)
         got = [x.value % p for x in out]
+        if len(ins) != nin:
+            R.violation("hash-mutates-its-input", "poseidon_hash changed the caller's list: %d -> %d items" % (nin, len(ins)), backend=be, message=mvals)
+
         want = ref.sponge(mvals, p, K["R_F"], K["R_P"], t, K["a"], K["round_constants"], K["matrix"])
         R.count("sponge_outputs_compared")
         R.count("sponge_outputs_compared:" + be)
@@ -203,6 +207,11 @@ def arith_worker(job):
                 R.violation("trace-depends-on-values", "sponge over %d inputs: constraint system differs between input values (%s vs %s constraints)" % (
                     len(msg), traces[(len(msg), kinds)][0], tr[0]), backend=be)
             traces[(len(msg), kinds)] = tr
+        if rnd.random() < 0.2:
+            again = [x.value % p for x in ph.poseidon_hash(ins)]
+            R.count("repeated_hash_of_same_list")
+            if again != got or len(ins) != nin:
+                R.violation("hash-mutates-its-input", "hashing the same list object twice gives different digests / changes the list", backend=be, message=mvals)
     # published subset-sum value (examples/hash.py, BN254)
     if p == FIELDS["zkinterface"]:
         pub_bits = [1, 0, 1, 1, 1, 0, 1, 0, 1, 1, 1, 0, 1]
